@@ -439,6 +439,9 @@ impl Property for SeqProp {
 
     fn kind(&self, op: &Op) -> String {
         match op {
+            // a compaction is a compaction, whether a worker message or the explicit major compaction triggers it
+            Op::Step { msg, .. } if msg.contains("Compact") => "compact".to_string(),
+            Op::Major { .. } => "compact".to_string(),
             Op::Step { msg, jrot } => {
                 let m = msg.split(['(', ':']).nth(1).unwrap_or("step");
                 format!("step:{}{}", m, if *jrot { "+jrot" } else { "" })
@@ -743,6 +746,8 @@ pub fn prefix(name: &str) -> Vec<Op> {
             "create z",
             "ins z.a=1",
         ]),
+        // a cross-keyspace batch whose first keyspace has been flushed, the other not
+        "batch_half_flushed" => p(&["ins y.b=1", "batch [x.a=2 y.a=1]", "rotate x", "step WorkerMessage:Flush"]),
         other => panic!("unknown prefix {other}"),
     }
 }
